@@ -34,6 +34,71 @@ func specFloat(lit string) string {
 	return "(S754_finite false " + strconv.FormatUint(man|1<<52, 10) + "%positive " + coqfmt.Z(exp-1075) + ")"
 }
 
+// giveUpOp finds, in recalcObjsPerSyncMsg(pods, ctrs, err), the test that gives up splitting:
+//
+//	if pods+ctrs <= minObjsPerMsg { return pods, ctrs, fmt.Errorf(...) }
+//
+// (the sum of the function's first two parameters compared with the constant; the body returns)
+// and says whether its operator is `<=` (true) or `<` (false).  Any other shape is fatal.
+func giveUpOp(f *gast.File) bool {
+	for _, d := range f.F.Decls {
+		fd, ok := d.(*ast.FuncDecl)
+		if !ok || fd.Name.Name != "recalcObjsPerSyncMsg" || fd.Body == nil {
+			continue
+		}
+		var params []string
+		for _, fl := range fd.Type.Params.List {
+			for _, n := range fl.Names {
+				params = append(params, n.Name)
+			}
+		}
+		if len(params) < 2 {
+			gast.Fatal("recalcObjsPerSyncMsg has fewer than two parameters in %s", f.Path)
+		}
+		found, le := 0, false
+		for _, st := range fd.Body.List {
+			is, ok := st.(*ast.IfStmt)
+			if !ok || is.Init != nil || is.Else != nil {
+				continue
+			}
+			be, ok := is.Cond.(*ast.BinaryExpr)
+			if !ok {
+				continue
+			}
+			sum, ok := be.X.(*ast.BinaryExpr)
+			c, ok2 := be.Y.(*ast.Ident)
+			if !ok || !ok2 || sum.Op != token.ADD || c.Name != "minObjsPerMsg" {
+				continue
+			}
+			a, ok := sum.X.(*ast.Ident)
+			b, ok2 := sum.Y.(*ast.Ident)
+			if !ok || !ok2 || a.Name != params[0] || b.Name != params[1] {
+				continue
+			}
+			if len(is.Body.List) != 1 {
+				continue
+			}
+			if _, ok := is.Body.List[0].(*ast.ReturnStmt); !ok {
+				continue
+			}
+			switch be.Op {
+			case token.LEQ:
+				found, le = found+1, true
+			case token.LSS:
+				found, le = found+1, false
+			default:
+				gast.Fatal("recalcObjsPerSyncMsg: unexpected operator %s in the give-up test of %s", be.Op, f.Path)
+			}
+		}
+		if found != 1 {
+			gast.Fatal("`if %s+%s <= minObjsPerMsg { return ... }` found %d times in recalcObjsPerSyncMsg of %s", params[0], params[1], found, f.Path)
+		}
+		return le
+	}
+	gast.Fatal("recalcObjsPerSyncMsg not found in %s", f.Path)
+	return false
+}
+
 // closeResetsSync says whether the method close of the stub unconditionally
 // assigns nil to the field that collectSync / deliverSync accumulate into:
 // a top-level statement `<recv>.<field> = nil` of the method body (statements
@@ -166,6 +231,8 @@ func main() {
 	b.P("(* recalcObjsPerSyncMsg: `if factor > %s { factor = %s }` as float64 values (mantissa, exponent) *)", cmp, set)
 	b.P("Definition sync_cap_cmp : spec_float := %s.", specFloat(cmp))
 	b.P("Definition sync_cap_set : spec_float := %s.", specFloat(set))
+	b.P("(* recalcObjsPerSyncMsg: the give-up test `if pods+ctrs OP minObjsPerMsg { return error }`: OP is `<=` (true) or `<` (false) *)")
+	b.P("Definition sync_giveup_le : bool := %v.", giveUpOp(f))
 
 	sf := gast.Parse(filepath.Join(*repo, "pkg/stub/stub.go"))
 	field, resets := closeResetsSync(sf)
